@@ -23,6 +23,7 @@ mod contexts;
 mod pathfs;
 mod inject;
 mod tenantstore;
+mod tenantapi;
 
 fn main() {
     let args: Vec<String> = std::env::args().collect();
@@ -63,6 +64,7 @@ fn main() {
         "pathfs-replay" => pathfs::replay(rest),
         "inject-replay" => inject::replay(rest),
         "tenantstore-replay" => tenantstore::replay(rest),
+        "tenantapi-replay" => tenantapi::replay(rest),
         "for-expand" => misc::for_expand(rest),
         "event-file" => misc::event_file(rest),
         other => {
